@@ -288,7 +288,7 @@ pub fn run(ctx: &Ctx, part: &str) -> i32 {
         let n = ctx.n(10, 200);
         ctx.par("real-threshold", n, true, |idx, rng| {
             let scfg = SCfg {
-                budget: *rng.pick(&[0usize, 1024, 10 * 1024 * 1024]),
+                budget: *rng.pick(&[0usize, 1024, 10 * 1024 * 1024, usize::MAX, 1usize << 62]),
                 raw: false,
                 initial: None,
                 allow_realloc: rng.chance(1, 2),
@@ -302,6 +302,11 @@ pub fn run(ctx: &Ctx, part: &str) -> i32 {
                 levels: if rng.chance(1, 2) { None } else { Some(2) },
                 order: rng.next_u64(),
             };
+            let mut scfg = scfg;
+            if scfg.budget > (1usize << 40) {
+                // a budget no machine has: only meaningful when the buffer may grow on demand
+                scfg.allow_realloc = true;
+            }
             let kind = pick_kind(rng, scfg.stable);
             let total = rng.range(12, 60) * 1024 * 1024;
             let max_val = *rng.pick(&[200usize, 2000, 20_000]);
